@@ -73,6 +73,19 @@ fn main() {
         }
     });
     run.sample(json!({"part": "file_level", "label": docs[100].1, "doc": doc_to_json(&docs[100].0)}));
+    if t {
+        // the same boundary family at 2^24 (16 MiB files; thorough only, regenerated on replay)
+        let cases: Vec<(usize, bool, bool)> = [0usize, 1, 2, 40, 200].iter().flat_map(|d| [(*d, true, true), (*d, true, false), (*d, false, true), (*d, false, false)]).collect();
+        run.nontrivial(cases.len() as u64);
+        util::par_for(cases.len(), |i| {
+            let (delta, big_last, table) = cases[i];
+            run.eval(1);
+            run.add("files_boundary_2p24", 1);
+            if let Some(m) = check_doc_with(&docgen::boundary_doc(24, delta, big_last), table, strict_reader) {
+                run.fail(None, json!({"kind": "boundary", "log2": 24, "delta": delta, "big_last": big_last, "table": table}), &m, "strict reader accepts the saved file and recovers the document");
+            }
+        });
+    }
     incremental(&run);
     resave(&run);
     run.exhaustive(true);
@@ -333,6 +346,11 @@ fn replay(run: &Run, path: &std::path::Path) -> ! {
     let res: Option<String> = match case["kind"].as_str() {
         Some("item") => check_single_with(&obj_from_json(&case["item"]), table, strict_reader),
         Some("doc") => check_doc_with(&doc_from_json(&case["doc"]), table, strict_reader),
+        Some("boundary") => check_doc_with(
+            &docgen::boundary_doc(case["log2"].as_u64().unwrap() as u32, case["delta"].as_u64().unwrap() as usize, case["big_last"].as_bool().unwrap()),
+            table,
+            strict_reader,
+        ),
         Some("resave") => {
             let bases = docgen::start_docs();
             let base = &bases[case["base"].as_u64().unwrap() as usize];
